@@ -30,13 +30,15 @@ S = Suite(
     what="reflection in x, y and both; axis swap; length and speed similarity; two public solver "
          "calls per case on related inputs",
     bound="grids 6..24 x 6..20 (even with truncated/full modes, odd with clamped modes), dx!=dy, "
-          "hand-built anisotropic veering profiles (Kx!=Ky!=Kz, 4 families, nz 6..12), random / "
+          "hand-built anisotropic veering profiles (Kx!=Ky!=Kz, 5 families, nz 6..12), random / "
           "sparse sources, footprint and dispersion mode (with and without re-centring), halo 0 "
           "for mirrors, halo 0/None/commensurate/incommensurate for swap, halo 0 / robustly "
-          "incommensurate / None (s a power of two) for scalings, factors 1e-2..1e3; a sample",
+          "incommensurate / None (s a power of two) for scalings, factors 1e-6..1e6 (every "
+          "decade, stratified) on profiles with Kz(z0) between 3e-3 and 8e-2 m2/s; a sample",
     rule="max|lhs-rhs| <= tol*max|rhs field|, tol = max(1e-9, 1000*eps*exp(G)) with G the rounding "
          "amplification estimate sum Re(lambda) dz below the output level; mirrors compared "
-         "after removing the Nyquist / cut-off rows and columns; G>18 counted trivial",
+         "after removing the Nyquist / cut-off rows and columns; G>18 counted trivial; speed "
+         "scaling: concentration above background, plus 100*eps*|background| representation error",
 )
 
 EPS = 2.220446049250313e-16
@@ -136,11 +138,15 @@ def _err(a, b, scale):
 
 
 def _verdict(pairs, tol, G, key, head):
-    errs = [(n, _err(a, b, sc)) for n, a, b, sc in pairs]
-    worst = max(e for _, e in errs)
-    nontrivial = G <= GMAX and all(sc > 0 for _, _, _, sc in pairs)
-    detail = "%s %s tol %.1e (G=%.1f)" % (head, " ".join("%s=%.2e" % e for e in errs), tol, G)
-    return Verdict(worst <= tol, detail, nontrivial=nontrivial, key=key, measured=worst / tol)
+    """pairs: (name, lhs, rhs, scale[, extra]) - `extra` widens the tolerance of that pair (see
+    scale_speed: representation error of background + small excess)."""
+    pairs = [p if len(p) == 5 else tuple(p) + (0.0,) for p in pairs]
+    errs = [(n, _err(a, b, sc), tol + ex) for n, a, b, sc, ex in pairs]
+    worst = max(e / t for _, e, t in errs)
+    nontrivial = G <= GMAX and all(sc > 0 for _, _, _, sc, _ in pairs)
+    detail = "%s %s tol %s (G=%.1f)" % (head, " ".join("%s=%.2e" % (n, e) for n, e, _ in errs),
+                                        "/".join("%.1e" % t for _, _, t in errs), G)
+    return Verdict(worst <= 1.0, detail, nontrivial=nontrivial, key=key, measured=worst)
 
 
 # ------------------------------------------------------------------ reflections
@@ -228,7 +234,12 @@ def scale_speed(nx, ny, dx, dy, halo, modes, footprint, im, jm, level, prof, src
     cB, fB = _call(q0, z, (u * c, v * c, Kx * c, Ky * c, Kz * c), domain, lev, modes, halo, meas,
                    footprint, bg)
     exc = (cA - bg) / c
-    return _verdict([("conc", cB - bg, exc, np.max(np.abs(exc))), ("flx", fB, fA, np.max(np.abs(fA)))],
+    # the returned field is background + excess/c in double precision: its own representation
+    # (and the last inverse FFT) is uncertain by a few ulps of the BACKGROUND, which for large
+    # c is not small against the excess; 100 eps |bg| covers ulp x log2(padded cells)
+    sc_c = np.max(np.abs(exc))
+    rep = 100.0 * EPS * abs(bg) * max(1.0, 1.0 / c) / max(float(sc_c), 1e-300)
+    return _verdict([("conc", cB - bg, exc, sc_c, rep), ("flx", fB, fA, np.max(np.abs(fA)))],
                     tol, G, "scale-speed" + ("-fp" if footprint else "-disp"), "c=%g" % c)
 
 
@@ -246,8 +257,19 @@ PROFILES = [
     dict(nz=6, z0=0.3, ztop=12.0, stretch=1.0, U=5.0, wdir=115.0, veer=10.0, ax=1.3, ay=0.9, az=0.5),
     dict(nz=12, z0=0.02, ztop=5.0, stretch=1.3, U=2.0, wdir=-70.0, veer=60.0, ax=0.8, ay=2.5, az=1.5,
          kmin=0.05),
+    # weak mixing next to the ground (Kz(z0) ~ 3e-3 m2/s): a few decades of down-scaling bring
+    # the lowest layers to molecular-diffusion magnitudes, up-scaling the top to ~1e6 m2/s
+    dict(nz=9, z0=0.02, ztop=6.0, stretch=1.6, U=3.5, wdir=60.0, veer=-20.0, ax=1.2, ay=0.8, az=0.9,
+         kmin=0.0),
 ]
-FACTORS = [0.01, 0.1, 0.25, 0.5, 2.0, 3.7, 10.0, 64.0, 100.0, 1000.0]
+# "scale factors over several decades": 1e-6 .. 1e6.  The PDE has no intrinsic length, time or
+# diffusivity scale, so every factor is admissible; with K of order 1e-2..1 m2/s before scaling
+# this sweeps K across 1e-8 .. 1e6 m2/s and cell sizes across 1e-5 .. 1e7 m.
+FACTORS = [1e-6, 1e-5, 1e-4, 1e-3, 0.01, 0.1, 0.25, 0.5, 2.0, 3.7, 10.0, 64.0, 100.0, 1e3, 1e4,
+           1e5, 1e6]
+# default halo (= max(domain)): exact cell counts need a power of two
+FACTORS_POW2 = [2.0 ** -20, 2.0 ** -14, 2.0 ** -10, 0.25, 0.5, 2.0, 64.0, 2.0 ** 10, 2.0 ** 14,
+                2.0 ** 20]
 
 
 def generate(tier, rng):
@@ -281,7 +303,7 @@ def generate(tier, rng):
                     prof=PROFILES[pk], src=rng.choice(["random", "sparse"]),
                     seed=rng.randint(0, 2 ** 31 - 1), bg=rng.choice([0.0, 1.5])), halo
 
-    for _ in range(n_each):
+    for it in range(n_each):
         p, _h = base("zero")
         p["axis"] = rng.choice(["x", "y", "xy"])
         yield "mirror", p
@@ -293,12 +315,14 @@ def generate(tier, rng):
         hk = rng.choice(["zero", "zero", "incomm", "none"])
         p, h = base(hk)
         p["halo"] = h
-        p["s"] = rng.choice([0.25, 0.5, 2.0, 64.0]) if hk == "none" else rng.choice(FACTORS)
+        # stratified over the decades (every factor met n_each/len times), not sampled
+        p["s"] = (FACTORS_POW2[it % len(FACTORS_POW2)] if hk == "none"
+                  else FACTORS[it % len(FACTORS)])
         yield "scale-length", p
 
         p, h = base(rng.choice(["zero", "zero", "none", "comm", "incomm"]))
         p["halo"] = h
-        p["c"] = rng.choice(FACTORS)
+        p["c"] = FACTORS[(it + 5) % len(FACTORS)]
         yield "scale-speed", p
 
 
